@@ -68,7 +68,7 @@ class Filler:
         return str(self.r.choice([0, 1, 2, 2, 3, 4]))
 
     def d(self):
-        return self.r.choice(["0.5", "2.5", "0.25", "1.5", "0.1", "0.2", "0.3", "12.75", "3.14", "17.2"])
+        return self.r.choice(["0.5", "2.5", "0.25", "1.5", "0.1", "0.2", "0.3", "12.75", "3.14", "17.2", "0.00002", "0.0000001", "123456.789", "0.001"])
 
     def n(self):
         return "-" + self.r.choice(["1", "2", "3", "4", "7", "0.5", "2.5", "10"])
